@@ -358,6 +358,19 @@ def select_targets(ctx):
 
 
 def run(ctx):
+    if ctx.only is None or ctx.only != {"sessions"}:
+        if ctx.only is not None:
+            ctx.only = ctx.only - {"sessions"}
+        _run_targets(ctx)
+        sessions_wanted = ctx.only is None
+    else:
+        sessions_wanted = True
+        ctx.stats.evaluations += 1
+    if sessions_wanted and ctx.tier == "thorough" and not ctx.stats.violations:
+        whole_program_sessions(ctx)
+
+
+def _run_targets(ctx):
     targets = select_targets(ctx)
     tree, bins = build_all(ctx, targets)
     ctx.notes["build_s"] = round(time.time() - ctx.t0, 1)
@@ -436,6 +449,47 @@ def run(ctx):
             ctx.stats.cls("excluded_" + f[len("excluded-"):], os.path.getsize(os.path.join(sdir, f)))
     if started == 0 and not ctx.stats.violations:
         raise vlib.HarnessError("no C20 target executed anything: %s" % ctx.notes.get("run_errors"))
+
+
+def whole_program_sessions(ctx):
+    """Thorough tier: the session generators of C07, C08, C13, C17 and C19 are re-run (their quick tier) against ASan+UBSan builds of the
+    whole programs (VERIF_SANITIZE=1), which covers the glue (main(), environment handling, qmail.c, the command loops on real descriptors)
+    that the in-process targets stub out. Only AddressSanitizer reports count here (the interposer appends them to log files through
+    __asan_set_error_report_callback); what those checks think of the sessions semantically is their own business. UBSan findings abort the
+    program and therefore surface in the sub-check as an abnormal exit, which is listed in the evidence notes but not counted."""
+    import subprocess, glob
+    logdir = os.path.join(vlib.scratch_root(), "san-logs")
+    os.makedirs(logdir, exist_ok=True)
+    env = dict(os.environ, VERIF_SANITIZE="1", VERIF_OUT=os.path.join(vlib.scratch_root(), "san-out"), VERIF_TIER="quick",
+               ASAN_OPTIONS="detect_leaks=0", UBSAN_OPTIONS="print_stacktrace=1", VSHIM_SANLOG=os.path.join(logdir, "asan"))
+    ran = {}
+    for pid in ("C08", "C19", "C07", "C13", "C17"):
+        t0 = time.time()
+        try:
+            p = subprocess.run([os.path.join(vlib.VERIF, "check"), pid, "--tier", "quick"], env=env, stdout=subprocess.PIPE, stderr=subprocess.STDOUT, timeout=1500)
+            tail = p.stdout.decode(errors="replace").strip().split("\n")[-1][:200]
+            ran[pid] = {"rc": p.returncode, "s": round(time.time() - t0), "last_line": tail}
+        except subprocess.TimeoutExpired:
+            ran[pid] = {"rc": "timeout"}
+            ctx.stats.inconclusive += 1
+    ctx.notes["sanitised_whole_program_sessions"] = ran
+    ctx.stats.samples.append({"sanitised_whole_program_session_checks": ran})
+    ctx.stats.evaluations += sum(int(re.search(r"evaluations=(\d+)", v.get("last_line", "")).group(1)) for v in ran.values() if re.search(r"evaluations=(\d+)", v.get("last_line", "")))
+    logs = sorted(glob.glob(os.path.join(logdir, "*")))
+    ctx.stats.cls("sanitised_session_checks_run", len(ran))
+    seen = set()
+    for f in logs:
+        txt = open(f, errors="replace").read()
+        m = re.search(r"(ERROR: AddressSanitizer: [^\n]*|runtime error: [^\n]*)", txt)
+        key = re.sub(r"0x[0-9a-f]+", "0x..", m.group(1))[:160] if m else txt[:100]
+        if key in seen:
+            continue
+        seen.add(key)
+        d = os.path.join(vlib.OUT, "replays", "C20")
+        os.makedirs(d, exist_ok=True)
+        dst = os.path.join(d, "sanitizer-report-%s.txt" % hashlib.sha1(key.encode()).hexdigest()[:12])
+        open(dst, "w").write(txt[:20000])
+        ctx.stats.violations.append(("whole-program session under sanitizers: %s" % key, dst))
 
 
 def replay(ctx, path):
